@@ -58,7 +58,7 @@ def install_year_contracts(ex, years):
     ex.contracts[N["YearShift"]] = c_yearshift
 
 def ext_zone(ex, st, N, T, spacing=None):
-    z = tz.build_zone(ex, st, N, T, spacing=spacing)
+    z = tz.build_zone(ex, st, N, T, spacing=spacing, off_bound=86399)       # extended zones come from Load: offsets strictly inside +-24h
     ex.store_raw(st, Ptr(z.obj.obj, 160), 1, 1)                 # extended_ = true
     return z
 
